@@ -470,12 +470,16 @@ class List(list, base.Symbolic, pg_typing.CustomTyping):
         list.__delitem__(self, i)
 
     # Update paths for children.
-    for idx, item in self.sym_items():
-      if isinstance(item, base.TopologyAware) and item.sym_path.key != idx:
-        item.sym_setpath(utils.KeyPath(idx, self.sym_path))
+    self._sync_children_paths()
 
     if self._onchange_callback is not None:
       self._onchange_callback(field_updates)
+
+  def _sync_children_paths(self) -> None:
+    """Makes the path of each child reflect its current position."""
+    for idx, item in self.sym_items():
+      if isinstance(item, base.TopologyAware) and item.sym_path.key != idx:
+        item.sym_setpath(utils.KeyPath(idx, self.sym_path))
 
   def _parse_slice(self, index: slice) -> Tuple[int, int, int]:
     start = index.start if index.start is not None else 0
@@ -735,12 +739,14 @@ class List(list, base.Symbolic, pg_typing.CustomTyping):
     if base.treats_as_sealed(self):
       raise base.WritePermissionError('Cannot sort a sealed List.')
     super().sort(key=key, reverse=reverse)
+    self._sync_children_paths()
 
   def reverse(self) -> None:
     """Reverse the elements of the list in place."""
     if base.treats_as_sealed(self):
       raise base.WritePermissionError('Cannot reverse a sealed List.')
     super().reverse()
+    self._sync_children_paths()
 
   def custom_apply(
       self,
